@@ -8,7 +8,7 @@ import VpnCloud.Proofs.C09More
 import VpnCloud.Proofs.Lemmas.GuardsUsedLemmas
 /-
   The comparison guards regenerated from the Rust source (`Generated/Guards.lean`) are called by the model at the places that mirror
-  the source lines.  For each of the thirteen guards this file pins the comparison at its boundary value, as a statement about the MODEL
+  the source lines.  For each of the fourteen guards this file pins the comparison at its boundary value, as a statement about the MODEL
   function that calls it: what happens when the two compared quantities are equal, and what happens one step to the side.  When a
   comparison operator changes in the source (say `<` into `<=`), the regenerated guard changes and the theorem about it below no
   longer checks.
@@ -55,6 +55,43 @@ theorem rotMsgStale_boundary (s : Rot.Side) (m : Rot.Msg) (f : Nat) (bm : Codec.
   · intro h
     simp only [Generated.rotMsgStale, decide_eq_true_eq] at h
     unfold PeerCrypto.derivePanics; rw [if_pos h]
+
+/-! ## `src/crypto/init.rs` -/
+
+/-- **retryAllowed** (`self.failed_retries < MAX_FAILED_RETRIES`): the guard regenerated from `InitState::every_second` is the
+    comparison the model's `everySecond` makes.  A handshake in progress whose stored message has been repeated `MAX_FAILED_RETRIES - 1`
+    times repeats it once more; after `MAX_FAILED_RETRIES` repetitions the tick fails with the fatal timeout and the attempt is closing.
+    For all handshake states. -/
+theorem retryAllowed_boundary (st : InitSt)
+    (h1 : st.stage ≠ Generated.WAITING_TO_CLOSE) (h2 : st.stage ≠ Generated.CLOSING) :
+    (∀ r, Generated.retryAllowed r = decide (r < Generated.MAX_FAILED_RETRIES)) ∧
+    (Generated.retryAllowed st.retries = true →
+      (Init.everySecond st) = ({ st with retries := st.retries + 1 }, .ok (st.last.getD []))) ∧
+    (Generated.retryAllowed st.retries = false →
+      (Init.everySecond st) = ({ st with stage := Generated.CLOSING }, .error .cryptoInitFatal)) ∧
+    (st.retries + 1 = Generated.MAX_FAILED_RETRIES → (Init.everySecond st).2 = .ok (st.last.getD [])) ∧
+    (st.retries = Generated.MAX_FAILED_RETRIES → (Init.everySecond st).2 = .error .cryptoInitFatal) := by
+  have hpos : st.retries < Generated.MAX_FAILED_RETRIES →
+      (Init.everySecond st) = ({ st with retries := st.retries + 1 }, .ok (st.last.getD [])) := by
+    intro h
+    unfold Init.everySecond
+    rw [if_neg h1, if_neg h2, if_pos h]
+  have hneg : ¬ st.retries < Generated.MAX_FAILED_RETRIES →
+      (Init.everySecond st) = ({ st with stage := Generated.CLOSING }, .error .cryptoInitFatal) := by
+    intro h
+    unfold Init.everySecond
+    rw [if_neg h1, if_neg h2, if_neg h]
+  refine ⟨fun _ => rfl, ?_, ?_, ?_, ?_⟩
+  · intro h
+    simp only [Generated.retryAllowed, decide_eq_true_eq] at h
+    exact hpos h
+  · intro h
+    simp only [Generated.retryAllowed, decide_eq_false_iff_not] at h
+    exact hneg h
+  · intro h
+    rw [hpos (by omega)]
+  · intro h
+    rw [hneg (by omega)]
 
 /-! ## `src/crypto/core.rs` -/
 
